@@ -567,4 +567,17 @@ def init : Node :=
 
 def run (cfg : Cfg) (ops : List Op) : Node := ops.foldl (step cfg) init
 
+/-- what the driver runs: the operations one after the other with their results; `none` = malformed line -/
+def runOps (cfg : Cfg) : Node → List String → List Op → Option (Node × List String)
+  | n, acc, [] => some (n, acc.reverse)
+  | n, acc, op :: ops =>
+    match step? cfg n op with
+    | none => none
+    | some (n', r) => runOps cfg n' (r :: acc) ops
+
+/-- the databases of all crash points of a log: `db`, `db` + 1 entry, …, `db` + the whole log -/
+def prefixes (db : DB) : List Entry → List DB
+  | [] => [db]
+  | e :: es => db :: prefixes (db.apply e) es
+
 end Gossamer.C36
